@@ -306,7 +306,22 @@ def rule_G5(ctx: Ctx) -> None:
     dsn = f.params()[0]
     outer = [n for n in N.walk_no_nested_defs(f.node) if isinstance(n, ast.For) and isinstance(n.iter, ast.Call) and dotted_of(n.iter.func) == "enumerate"]
     if len(outer) != 1:
-        ctx.unknown(f, {"outer_loops": len(outer)}, "one enumerate loop over the mazes")
+        # located by role: the loop nest that compares pairs of mazes (a `for` directly containing a `for`)
+        nests = [n for n in N.walk_no_nested_defs(f.node) if isinstance(n, ast.For) and any(isinstance(b_, ast.For) for b_ in n.body)]
+        if len(nests) == 1:
+            inner_ = [b_ for b_ in nests[0].body if isinstance(b_, ast.For)][0]
+            seq = nests[0].iter
+            while isinstance(seq, ast.Call) and seq.args and dotted_of(seq.func) in ("reversed", "enumerate", "list", "tuple"):
+                seq = seq.args[0]
+            later = isinstance(inner_.iter, ast.Subscript) and isinstance(inner_.iter.slice, ast.Slice) and X.U(inner_.iter.value) == X.U(seq)
+            if not later:
+                ctx.violation(f, {"outer": X.U(nests[0].iter), "inner_range": X.U(inner_.iter)},
+                              "each maze is compared with the *later* mazes of the input only: mazes[i + 1:]",
+                              "a maze is compared with another set (e.g. only the mazes kept so far): near-duplicate chains A~B~C keep A although a later maze is within the thresholds", node=inner_)
+            else:
+                ctx.unknown(f, {"outer": X.U(nests[0].iter), "inner_range": X.U(inner_.iter)}, "one enumerate loop over the mazes")
+        else:
+            ctx.unknown(f, {"outer_loops": len(outer)}, "one enumerate loop over the mazes")
     else:
         o = outer[0]
         i_name = o.target.elts[0].id
